@@ -307,6 +307,69 @@ Section Prep.
   (* nothing is invented on an empty column by the concrete fall-backs *)
   Definition all_missing (x : col) : Prop := Forall (fun c : cell => c = None) x.
 
+
+  (* an empty column stays empty and unflagged when the imputer proposes nothing for it
+     (_interpolate_col returns an all-NaN column untouched) *)
+  Lemma all_missing_no_value : forall x, all_missing x -> has_missing x = true \/ x = [].
+  Proof. intros [|c x] H; [right; reflexivity | left]. inversion H; subst. reflexivity. Qed.
+
+  Lemma ann_all_missing : forall x : col, all_missing x -> snd (ann x) = None /\ fst (ann x) = map (fun c => (c, None)) x.
+  Proof.
+    induction x as [|c x IH]; intros H; [split; reflexivity|].
+    inversion H; subst. destruct (IH H3) as [S F]. cbn [ann]. destruct (ann x) as [r nx]. cbn [fst snd] in *. subst nx r.
+    split; reflexivity.
+  Qed.
+
+  Lemma tl_fwd_all_missing : forall x : col, all_missing x -> tl_fwd lin None (map (fun c => (c, None)) x) = x.
+  Proof.
+    induction x as [|c x IH]; intros H; [reflexivity|]. inversion H; subst. cbn [map tl_fwd]. rewrite IH by assumption. reflexivity.
+  Qed.
+
+  Lemma time_linear_all_missing : forall x, all_missing x -> time_linear lin x = x.
+  Proof. intros x H. unfold time_linear. destruct (ann_all_missing x H) as [_ F]. rewrite F. apply tl_fwd_all_missing. exact H. Qed.
+
+  Lemma ffill_all_missing : forall x, all_missing x -> ffill x = x.
+  Proof. unfold ffill. induction x as [|c x IH]; intros H; [reflexivity|]. inversion H; subst. cbn [ffill_from]. rewrite IH by assumption. reflexivity. Qed.
+
+  Lemma bfill_all_missing : forall x, all_missing x -> bfill x = x.
+  Proof.
+    induction x as [|c x IH]; intros H; [reflexivity|]. inversion H; subst. cbn [bfill present]. rewrite IH by assumption.
+    destruct x as [|d x]; [reflexivity|]. inversion H3; subst. reflexivity.
+  Qed.
+
+  Lemma fallbacks_all_missing : forall x, all_missing x -> fallbacks lin x = x.
+  Proof.
+    intros x H. unfold fallbacks.
+    assert (E1 : (if has_missing x then time_linear lin x else x) = x) by (destruct (has_missing x); [apply time_linear_all_missing; exact H | reflexivity]).
+    rewrite E1.
+    assert (E2 : (if has_missing x then ffill x else x) = x) by (destruct (has_missing x); [apply ffill_all_missing; exact H | reflexivity]).
+    rewrite E2. destruct (has_missing x); [apply bfill_all_missing; exact H | reflexivity].
+  Qed.
+
+  Lemma merge_fill_all_missing : forall x e, all_missing x -> all_missing e -> merge_fill x e = x.
+  Proof.
+    induction x as [|c x IH]; intros e Hx He; [reflexivity|]. inversion Hx; subst. cbn [merge_fill present].
+    destruct e as [|d e]; cbn [hd tl].
+    - rewrite IH; [reflexivity | assumption | constructor].
+    - inversion He; subst. rewrite IH; [reflexivity | assumption | assumption].
+  Qed.
+
+  Lemma flags_all_missing : forall x : col, all_missing x -> flags x x = map (fun _ => false) x.
+  Proof.
+    induction x as [|c x IH]; intros H; [reflexivity|]. inversion H; subst. unfold flags in *. cbn. rewrite IH by assumption. reflexivity.
+  Qed.
+
+  Lemma empty_column_stays_empty : forall c x, all_missing x -> all_missing (est c x) ->
+    interp_col lin est c x = x /\ flags x (interp_col lin est c x) = map (fun _ => false) x.
+  Proof.
+    intros c x Hx He.
+    assert (E : interp_col lin est c x = x).
+    { unfold interp_col, autocorr_stage. destruct (_ <? _).
+      - rewrite merge_fill_all_missing by assumption. apply fallbacks_all_missing. exact Hx.
+      - apply fallbacks_all_missing. exact Hx. }
+    rewrite E. split; [reflexivity | apply flags_all_missing; exact Hx].
+  Qed.
+
   (* the two last fall-backs alone already complete a column that has a value *)
   Lemma ffill_from_present : forall x prev, prev <> None -> all_present (ffill_from prev x).
   Proof.
